@@ -17,10 +17,76 @@ def renderIds (d : DState) (denseLabels : List Nat) (ids : List Nat) : String :=
     | none => "?"
     | some l => match posOf denseLabels l with | some p => toString p | none => s!"?{l}"))
 
+def renderIdsS (st : Store) (denseLabels : List Nat) (ids : List Nat) : String :=
+  if ids.isEmpty then "[]" else
+  ",".intercalate (ids.map (fun i => match st.labelOf i with
+    | none => "?"
+    | some l => match posOf denseLabels l with | some p => toString p | none => s!"?{l}"))
+
+/-- the recompute-from-scratch wrapper: the model is the store itself plus the static solver's
+program run on its view at every query -/
+def runDummyTrace (sk : SolverKind) (lines : List String) : List String := Id.run do
+  let some enc := encOf sk "def" | return []
+  let mut st := Store.empty
+  let mut world : World := {}
+  let mut out : List String := []
+  let mut rest := lines
+  let mut stopped := false
+  while !rest.isEmpty && !stopped do
+    let l := rest.headD ""
+    rest := rest.drop 1
+    match toks l with
+    | "U" :: tok :: _ =>
+      match opOf tok with
+      | none => out := s!"mU {tok} unparsable" :: out
+      | some op =>
+        match st.step op with
+        | .ok s' => st := s'; out := s!"mU {tok} ok" :: out
+        | .err s' => st := s'; out := s!"mU {tok} err" :: out
+        | .panic => out := s!"mU {tok} panic" :: out; stopped := true
+    | ["Q", what, lab] =>
+      let chunk := rest.takeWhile (fun x => !(x.startsWith "ans " || x.startsWith "panic"))
+      rest := rest.drop chunk.length
+      let labels := match chunk.find? (fun x => x.startsWith "fw ") with
+        | some f => natList (kvGetD (toks f) "labels" "-")
+        | none => []
+      let replies := chunk.filterMap parseReply
+      let cert := what.endsWith "1"
+      out := s!"mQ {what} {lab}" :: out
+      match st.getArg (natOf lab) with
+      | none => out := "mans CRASH no such argument" :: out; stopped := true
+      | some id =>
+        let entry : Entry := if what.startsWith "dc" then .dc cert [id] else .ds cert [id]
+        match entryProg sk ⟨enc, 100000⟩ st.view entry with
+        | none => out := "mans CRASH entry point not offered" :: out; stopped := true
+        | some p =>
+          let w0 : World := { world with trace := [], calls := 0 }
+          let (oc, w) := interp p replies w0
+          world := w
+          for e in w.trace.reverse do
+            out := s!"T {renderEv e}" :: out
+          match oc with
+          | .done (.acc a _) =>
+            let c := if !cert then "-" else match a.cert with | none => "NONE" | some e => renderIdsS st labels e
+            out := s!"mans ACC status={if a.status then "YES" else "NO"} cert={c}" :: out
+          | .done _ => out := "mans CRASH unexpected answer kind" :: out; stopped := true
+          | .abort => out := "mans ABORT" :: out; stopped := true
+          | .crashed m => out := s!"mans CRASH {m}" :: out; stopped := true
+          | .starved => out := "mans STARVED" :: out; stopped := true
+    | _ => pure ()
+  if stopped then out := "mstop" :: out
+  return out.reverse
+
 /-- model output for a `dyn` case with `trace=1`: `mU` per update, `T` lines and `mans` per query -/
 def runDynTrace (lines : List String) : List String := Id.run do
   let inl := (lines.find? (fun l => l.startsWith "in ")).getD ""
-  let some sem := dsemOfKind (kvGetD (toks inl) "kind" "") | return []
+  if kvGetD (toks inl) "trace" "0" == "0" then return []
+  let kind := kvGetD (toks inl) "kind" ""
+  if kind.startsWith "dummy_" then
+    match solverKindOf (kind.drop 6).toString with
+    | some sk => return runDummyTrace sk lines
+    | none => return []
+  let some sem := dsemOfKind kind | return []
   if kvGetD (toks inl) "trace" "0" == "0" then return []
   let mut d := DState.init sem
   let mut world : World := ({} : World).onNew
